@@ -312,7 +312,7 @@ def scale_configs(tier):
     for mod in MODULES:
         for alg in BOUNDED:
             for backend in (('none',) if tier == 'quick' else ('none', 'dict')):
-                cfgs.append(C(mod, alg, 30, False, 'default', backend, nargs=35, spellings=0, scale=True, depth=4, states=150 if tier == 'quick' else 3000))
+                cfgs.append(C(mod, alg, 30, False, 'default', backend, nargs=35, spellings=0, scale=True, depth=4, states=150 if tier == 'quick' else 800))
     return cfgs
 
 
@@ -345,7 +345,7 @@ def m_C02(tier):
         for alg in (('lru', 'lfu') if tier == 'quick' else BOUNDED):
             cfgs.append(C(mod, alg, 1, False, 'default', 'dict', nargs=2, spellings=0,
                           narrow=[['arch', False], ['arch', True], ['newarch'], ['dump']], depth=7 if tier == 'quick' else 8,
-                          states=3000 if tier == 'quick' else 20000))
+                          states=3000 if tier == 'quick' else 5000))
     cfgs += longuse_configs(tier, backends=('dict',), deep=True)
     cfgs += rebuilt_configs(tier, 'C02')
     return cfgs
@@ -376,7 +376,7 @@ def m_C07(tier):
                               depth=5, states=800 if tier == 'quick' else 2500))
     cfgs += longuse_configs(tier, backends=('dict',))
     # larger maxsize with an archive attached (LFU evicts maxsize // 10 entries at a time there)
-    cfgs += [dict(c, states=150 if tier == 'quick' else 3000) for c in scale_configs('thorough')
+    cfgs += [dict(c, states=150 if tier == 'quick' else 800) for c in scale_configs('thorough')
              if c['backend'] == 'dict' and (tier == 'thorough' or c['alg'] == 'lfu')]
     cfgs += rebuilt_configs(tier, 'C07')
     return cfgs
